@@ -23,6 +23,9 @@ ROWSETS = {
     "gaps": [[1, 3], [3, 4], [5, 8]],
     "overlap": [[0, 4], [2, 3], [5, 6], [6, 8]],
     "single": [[2, 6]],
+    # a long row followed by short rows that end well before it does (endtimes not monotone): a range starting inside the long row,
+    # after the short ones
+    "nested": [[0, 6], [1, 2], [3, 4], [6, 8]],
 }
 RUN_END = 8
 
@@ -103,7 +106,7 @@ def execute(arg):
 def run(chk):
     V.quiet_threads()
     quick = chk.tier == "quick"
-    scen = [("gaps", False, 3), ("overlap", False, 3 if quick else 4), ("single", False, 3), ("gaps", True, 2), ("overlap", True, 2)]
+    scen = [("gaps", False, 3), ("overlap", False, 3 if quick else 4), ("nested", False, 3), ("single", False, 3), ("gaps", True, 2), ("overlap", True, 2)]
     if not quick:
         scen += [("gaps", False, 4), ("gaps", True, 3)]
     chk.rule = ("stored layout = every law-abiding chunking of a small run (original and re-chunked, incl. empty / zero-duration chunks); request = "
